@@ -81,11 +81,15 @@ func exceededErr(r *rand.Rand, chosen codes.Code, msg string) error {
 	for other == chosen {
 		other = codeChoices[r.IntN(len(codeChoices))]
 	}
-	switch r.IntN(3) {
+	switch r.IntN(4) {
 	case 0:
 		return status.Error(other, msg)
 	case 1:
 		return fmt.Errorf("%s: %w", msg, status.Error(other, "inner"))
+	case 2:
+		// a classifier that only chooses the code (and the response) and has no error of its own to add
+		rt.Count("limit_exceeded_classifiers_returning_a_nil_error", 1)
+		return nil
 	}
 	return errors.New(msg)
 }
